@@ -8,6 +8,7 @@ from vf import core, kani
 
 CRATE = "engines/kani/curves"
 H = kani.H
+QX, CX = "curves/src/ff_ext/quadratic.rs", "curves/src/ff_ext/cubic.rs"
 
 
 def _pure(prefix, ty, src, mod):
@@ -123,6 +124,29 @@ SPECS = (
     H("c10::bfp2_from_repr_total", "C10.K.bfp2.from_repr.total",
       "BLS Fp2::from_repr is total: Some exactly when both halves are below p, never a panic",
       ["curves/src/bls12_381/g2.rs::<Fp2 as PrimeField>::from_repr"], "all 2^768 byte strings", "bls12_381::Fp2::from_repr:panics-on-noncanonical", est=15, timeout={"quick": 600, "thorough": 1800}),
+] + [
+    # ---- generic extension towers at toy base fields (hook H8)
+    H(f"c10::quad_arith_q{q}", f"C10.K.quadext.arith.q{q}",
+      "QuadExtField<F>: add, sub, neg, double, mul, square, conjugate, norm, invert, is_zero, frobenius_map equal the schoolbook definitions in F[u]/(u^2+1)",
+      [f"{QX}::QuadExtFieldArith::mul_assign", f"{QX}::QuadExtFieldArith::square_assign", f"{QX}::QuadExtField::norm", f"{QX}::QuadExtField::invert",
+       f"{QX}::QuadExtField::conjugate", f"{QX}::QuadExtField::is_zero"],
+      f"all pairs of elements of F_{q}^2 (toy base field F_{q})", f"QuadExtField:arith:q{q}", tiers=t, est=20, timeout={"quick": 300, "thorough": 1200},
+      flags=["--no-assertion-reach-checks"])
+    for q, t in ((7, ("quick", "thorough")), (11, ("thorough",)), (19, ("thorough",)))
+] + [
+    H(f"c10::quad_sqrt_q{q}", f"C10.K.quadext.sqrt.q{q}",
+      "QuadExtField<F>::sqrt (sqrt_algo9) is Some exactly for the squares of F_{q^2} (exhaustive reference) and then root^2 = e",
+      [f"{QX}::sqrt_algo9", f"{QX}::QuadExtField::sqrt"], f"all {q * q} elements of F_{q}^2 (toy base field F_{q})", f"QuadExtField:sqrt_algo9:q{q}",
+      tiers=t, est=40, timeout={"quick": 300, "thorough": 1200}, flags=["--no-assertion-reach-checks"])
+    for q, t in ((7, ("quick", "thorough")), (11, ("thorough",)), (19, ("thorough",)))
+] + [
+    H("c10::cubic_arith_c7", "C10.K.cubicext.arith.q7",
+      "CubicExtField<F>: add, sub, neg, double, mul, square, invert equal the schoolbook definitions in F[v]/(v^3-3)",
+      [f"{CX}::CubicExtFieldArith::mul_assign", f"{CX}::CubicExtFieldArith::square_assign", f"{CX}::CubicExtField::invert"],
+      "all pairs of elements of F_7^3 (toy base field F_7)", "CubicExtField:arith:q7", est=30, timeout={"quick": 300, "thorough": 1200},
+      flags=["--no-assertion-reach-checks"]),
+    H("c10::cubic_is_zero_c7", "C10.K.cubicext.is_zero.q7", "CubicExtField<F>::is_zero holds exactly for the zero element",
+      [f"{CX}::CubicExtField::is_zero"], "all 343 elements of F_7^3", "CubicExtField::is_zero:ignores-c2", est=5, flags=["--no-assertion-reach-checks"]),
 ])
 
 
@@ -132,6 +156,10 @@ def check(run):
         "K/C10: mul, square, invert, sqrt, pow, from_u512/from_bytes_wide, Montgomery reduction as values (engine M); Fp2/Fp6/Fp12, BN254, secp256k1 (k256 crate), curve25519 Scalar (dalek)",
         "K/C10: Ord/PartialOrd and to_repr(from_repr(b)) = b of Jubjub Fr and Curve25519 Fp: both need the Montgomery reduction as a value "
         "(harnesses c10::jfr_ord, c10::cfp_ord, c10::*_repr_roundtrip exist but CBMC does not finish in 240 s: left to engine M)",
+        "K/C10: QuadExtField / sqrt_algo9 / CubicExtField are decided at TOY base fields (F_7, F_11, F_19 with u^2 = -1; F_7 with v^3 = 3): the code is generic in the base field "
+        "and only uses its field operations, so genericity is what transfers the statement to the bn256 tower; the toy field is the bound. Not covered: sqrt_algo10, the sparse "
+        "multiplications (mul_by_014/034/01/1), Fq12-level code, the per-type specialisations (bn256 Fq2::square_assign, mul_by_nonresidue, frobenius coefficients), "
+        "ff_ext/inverse.rs (BYInverter) and ff_ext/jacobi.rs (62-bit limb kernels, not generic in a field)",
         "K/C10: the C/assembly bodies of blst (every blst_* function is a nondeterministic oracle: only the Rust wrapper logic is claimed)",
     ]
     kani.run_harnesses(run, CRATE, SPECS)
